@@ -775,8 +775,8 @@ def run(ctx):
         shapes=shape_names(),
         materials={k: sorted(n for n, kk in mats if kk == k) for k in ("solid", "fluid", "custom", "void")},
         temperature_ranges_C={m: r[:2] + [r[3]] for m, r in sorted(ranges.items())},
-        grid_points=its[0]["npts"] if its else None,
-        max_path_length=its[0]["maxlen"] if its else None,
+        grid_points=max(it.get("npts", 0) for it in its),
+        max_path_length=max(it["maxlen"] for it in its),
         states_checked=tot["checked_states"],
         states_refused=tot["refused_states"],
         hot_setDimension_checks=tot["hotsets"],
